@@ -118,6 +118,22 @@ func (ec *evalCtx) mapSet(m *MapV, k *Term, v Value) *MapV {
 		n.Val[prefix] = Store(n.Val[prefix], k, leaf)
 	}
 	set(m.Elem, "", v)
+	if _, nested := m.Elem.Underlying().(*types.Map); nested {
+		// SSA-style naming: a map of maps is updated through long store/ite chains; give every
+		// intermediate state a name so that queries stay small and the solver sees shared structure
+		name := func(t *Term) *Term {
+			if t == nil || t.Op == "var" {
+				return t
+			}
+			c := Var(ec.e().fresher.name("mapst"), t.Sort)
+			ec.st.Assume(Eq(c, t))
+			return c
+		}
+		n.Dom = name(n.Dom)
+		for l, arr := range n.Val {
+			n.Val[l] = name(arr)
+		}
+	}
 	return n
 }
 
